@@ -150,13 +150,22 @@ func oracleC03(s *gtfs.Static, f *sfeed) string {
 		}
 		return nil
 	}
+	namedIdx := map[string]map[string]bool{}
 	named := func(rows []srow, idcol, id, refcol, want string) bool { // is there a row with that id naming want in refcol?
-		for _, r := range rows {
-			if r[idcol] == id && r[refcol] == want {
-				return true
+		k := idcol + "\x00" + refcol
+		idx, ok := namedIdx[k]
+		if !ok {
+			idx = map[string]bool{}
+			for _, r := range rows {
+				idx[r[idcol]+"\x00"+r[refcol]] = true
 			}
+			namedIdx[k] = idx
 		}
-		return false
+		return idx[id+"\x00"+want]
+	}
+	stIdx := map[string]bool{}
+	for _, r := range rowsOf("stop_times.txt") {
+		stIdx[r["trip_id"]+"\x00"+r["stop_id"]+"\x00"+r["stop_sequence"]] = true
 	}
 	for i := range s.Routes {
 		r := &s.Routes[i]
@@ -228,13 +237,7 @@ func oracleC03(s *gtfs.Static, f *sfeed) string {
 			if st.Stop == nil || idxStop(s, st.Stop) == foreign {
 				return fmt.Sprintf("trip %q stop time %d: nil stop or stop pointer outside Static.Stops", t.ID, k)
 			}
-			ok := false
-			for _, r := range rowsOf("stop_times.txt") {
-				if r["trip_id"] == t.ID && r["stop_id"] == st.Stop.Id && r["stop_sequence"] == fmt.Sprint(st.StopSequence) {
-					ok = true
-				}
-			}
-			if !ok {
+			if !stIdx[t.ID+"\x00"+st.Stop.Id+"\x00"+fmt.Sprint(st.StopSequence)] {
 				return fmt.Sprintf("trip %q stop time seq %d at stop %q is named by no row", t.ID, st.StopSequence, st.Stop.Id)
 			}
 		}
